@@ -263,6 +263,12 @@ def main():
                     known_hit.setdefault(kf["id"], kf)
                 else:
                     violations.append((sname, case, obs, clause, detail, i))
+            if hasattr(s, "correspondence"):
+                try:
+                    for msg in s.correspondence(case, obs):
+                        disagreements.append((sname, case, obs, [msg], 0))
+                except Exception as e:  # noqa: BLE001
+                    broken.append({"kind": "harness", "stream": sname, "error": f"correspondence(): {type(e).__name__}: {e}"})
             if model_obs is not None and idx < len(model_obs):
                 mo = model_obs[idx]
                 if mo != obs:
@@ -334,16 +340,19 @@ def main():
             sname, case, obs, mo, k = disagreements[0]
             s = streams[sname]
 
-            def dis(c):
-                try:
-                    o = s.real(c)
-                    m = run_model(sname, [c])
-                    return m is not None and m[0] != o
-                except Exception:  # noqa: BLE001
-                    return False
-            small = ddmin(case, dis, keep_prefix=getattr(s, "keep_prefix", 0), max_tests=150)
-            body["disagreement"] = {"stream": sname, "ops": small, "real": s.real(small),
-                                    "model": (run_model(sname, [small]) or [[]])[0]}
+            if hasattr(s, "correspondence"):
+                body["disagreement"] = {"stream": sname, "ops": case, "real": obs, "model": mo}
+            else:
+                def dis(c):
+                    try:
+                        o = s.real(c)
+                        m = run_model(sname, [c])
+                        return m is not None and m[0] != o
+                    except Exception:  # noqa: BLE001
+                        return False
+                small = ddmin(case, dis, keep_prefix=getattr(s, "keep_prefix", 0), max_tests=150)
+                body["disagreement"] = {"stream": sname, "ops": small, "real": s.real(small),
+                                        "model": (run_model(sname, [small]) or [[]])[0]}
         json.dump(body, open(replay_path, "w"), indent=1)
         out_lines.append(f"VIOLATION property={prop} replay={replay_path} no-failing-input-found")
         rc = 1
